@@ -61,28 +61,28 @@ type FaultDirective struct {
 
 // reqCtx is the bookkeeping for the request currently being served.
 type reqCtx struct {
-	browser    int
-	fault      *FaultDirective
-	faultFired string // site the directive fired at ("" = not fired)
-	calls      []string
-	matchN     int
+	browser     int
+	fault       *FaultDirective
+	faultFired  string // site the directive fired at ("" = not fired)
+	calls       []string
+	matchN      int
 	handlerErrs []string
-	panicVal   string
-	probe      *ProbeRec
-	logsFrom   int
-	mailsFrom  int
-	smsFrom    int
-	sessEvents []authboss.ClientStateEvent
-	cookEvents []authboss.ClientStateEvent
-	writes     []WriteRec
+	panicVal    string
+	probe       *ProbeRec
+	logsFrom    int
+	mailsFrom   int
+	smsFrom     int
+	sessEvents  []authboss.ClientStateEvent
+	cookEvents  []authboss.ClientStateEvent
+	writes      []WriteRec
 }
 
 // ProbeRec is what a probe handler behind some middleware could see.
 type ProbeRec struct {
-	Ran      bool              `json:"ran"`
-	UserID   string            `json:"user_id"`
-	UserErr  string            `json:"user_err"`
-	Session  map[string]string `json:"session"`
+	Ran     bool              `json:"ran"`
+	UserID  string            `json:"user_id"`
+	UserErr string            `json:"user_err"`
+	Session map[string]string `json:"session"`
 }
 
 type MailRec struct {
@@ -607,9 +607,10 @@ var sessionKeysOfInterest = []string{
 }
 
 // Probe routes:
-//   /probe/open                      — no middleware; reports what a handler sees
-//   /probe/mw/<reqs>/<mode>/<mp>/... — authboss.MountedMiddleware2
-//   /probe/lock  /probe/confirm      — Middleware2(RequireNone, 404) → lock/confirm middleware
+//
+//	/probe/open                      — no middleware; reports what a handler sees
+//	/probe/mw/<reqs>/<mode>/<mp>/... — authboss.MountedMiddleware2
+//	/probe/lock  /probe/confirm      — Middleware2(RequireNone, 404) → lock/confirm middleware
 func (w *World) serveProbe(rw http.ResponseWriter, r *http.Request) {
 	ab := w.AB
 	final := http.HandlerFunc(func(rw http.ResponseWriter, r *http.Request) {
